@@ -194,6 +194,14 @@ def wl_parser(ctx, config):
                 if ser is not None: ctx.check(ser.ret == 1 and ser.b(2) == s, "wl_serialize:roundtrip", "count=%d" % cnt, config)
     pr = ctx.call("wl_parse", b'', config=config)
     if pr is not None: ctx.check(pr.ret == 0, "wl_parse:empty_accepted", "", config)
+    # every length around the exact one for small counts (and around 32-byte multiples in general)
+    for cnt in ctx.mine(list(range(0, 6)) + [254, 255]):
+        exact = 1 + 32 * (cnt + 1); body = bytes([cnt]) + pools.rbytes(rng, exact + 70)
+        for L in range(max(0, exact - 70), exact + 70):
+            pr = ctx.call("wl_parse", body[:L], config=config)
+            if pr is None: continue
+            ctx.ev("wl_parse", "length_sweep", True, cnt, L)
+            ctx.check(pr.ret == (1 if L == exact else 0), "wl_parse:%s" % ("accepted_bad_length" if pr.ret else "rejected_exact_length"), "count=%d len=%d" % (cnt, L), config)
 
 def run(ctx):
     for config in ctx.cfgs():
